@@ -631,6 +631,8 @@ pub fn cases_int(r: &mut Reg, tier: Tier, _seed: u64) {
         (60, 30, 17, true), (60, 30, 19, true), (60, 30, 21, true), (200, 50, 40, true), (200, 50, 44, true), (200, 150, 160, true),
         // siblings differing in one population count only (same sample size and feature count)
         (10040, 500, 400, true), (9600, 500, 400, true),
+        // large mode with K != N - K after the reflections (the final acceptance step of H2PE is only reached for mode >= 100)
+        (30000, 10000, 6000, true), (30000, 20000, 24000, true), (1_000_000, 300_000, 100_000, true),
     ];
     for &nn in &[u64::MAX - 2, 1 << 63, 1 << 62] {
         hyp.push((nn, nn / 2, 1000, false));
